@@ -103,10 +103,12 @@ CHECKS = {
          'were and only extends the frame heap; the API entry (Wal.eval with keyword arguments) restores shadowed globals; Wal.run starts from a fresh state.' + DIFF,
     technique='Coq proof (balanced-context invariant by induction on evaluator fuel) + differential correspondence'),
  'C18': dict(
-    text='Theorems (Coq): time cell with 0..9 fractional digits -> integer ns exactly, for numerals of any length (csv_time); decimal value inverts the numeral printer. '
-         'PARTIAL: the table walk (column order, time column position, header normalisation) is decided by the correspondence check '
-         '(extracted csv_parse vs Wal.load on generated tables) and the independent denotation oracle, not by a theorem.',
-    technique='Coq proof of the ns conversion + differential correspondence (extracted CSV parser) + denotation oracle'),
+    text='Theorems (Coq): time cell with 0..9 fractional digits -> integer ns exactly, for numerals of any length (csv_time); decimal value inverts the numeral printer; '
+         'header walk: every non-time column renamed in place, signals = normalised names in order; table walk: timestamps = converted time cells in row order and each '
+         'uniquely named column holds its cell of every row in row order, wherever the time column stands, any number of rows/columns. '
+         'PARTIAL: text splitting (strip, newline, comma) and the name-normalisation regexes are decided by the correspondence check '
+         '(extracted csv_parse vs Wal.load on generated tables) and the independent denotation oracle.',
+    technique='Coq proof (ns conversion, header and table walk by induction) + differential correspondence (extracted CSV parser) + denotation oracle'),
  'C19': dict(
     text='Theorems (Coq): sample-at keeps one sample per distinct selected index in list order, builds lookup table and timestamps from the same list, resets the index and '
          'drops virtual caches; the value at new index j is the original value at the j-th selected sample; a later sample-at refers to original indices; trim-trace sets '
